@@ -50,6 +50,8 @@ var c14Shapes = []string{
 	"permessage-deflate; client_max_window_bits=abc", // malformed: not a number
 	"permessage-deflate; client_max_window_bits=010", // malformed: leading zero (numerically in range)
 	"permessage-deflate; client_max_window_bits=+10", // malformed: sign
+	"permessage-deflate; client_max_window_bits=10; client_max_window_bits=12", // malformed: duplicate with values
+	"permessage-deflate; client_max_window_bits=10; client_max_window_bits",    // malformed: duplicate, first with a value
 	"permessage-deflate; server_max_window_bits=15",
 	"permessage-deflate; server_max_window_bits=10",                              // well-formed, this server cannot honour it
 	"permessage-deflate; server_max_window_bits",                                 // malformed: needs a value
@@ -228,7 +230,25 @@ func exchange(c *fw.Ctx, ctx context.Context, conn *websocket.Conn, mc *memConn,
 	mc.takeOut()
 	for i, msg := range c14Msgs {
 		var werr error
-		if p := fw.Recover(func() { werr = conn.Write(ctx, websocket.MessageText, msg) }); p != "" {
+		if p := fw.Recover(func() {
+			if i == 1 {
+				// the second message is streamed in chunks of 700 bytes (each above the default thresholds)
+				var wr io.WriteCloser
+				wr, werr = conn.Writer(ctx, websocket.MessageText)
+				for off := 0; werr == nil && off < len(msg); off += 700 {
+					end := off + 700
+					if end > len(msg) {
+						end = len(msg)
+					}
+					_, werr = wr.Write(msg[off:end])
+				}
+				if werr == nil {
+					werr = wr.Close()
+				}
+				return
+			}
+			werr = conn.Write(ctx, websocket.MessageText, msg)
+		}); p != "" {
 			fails = append(fails, exchFail{"C14/panic/write", "panic in Write: " + p})
 			break
 		}
